@@ -401,6 +401,20 @@ def directed_cases() -> list[dict]:
             ins = [[first[0], first[1], None]] + [[g, q, None] for g, q in later]
             n = 1 + max(q for _, qs, _ in ins for q in qs)
             out.append({"n": max(n, 3), "aps": True, "instrs": ins})
+    # three-qubit gates on qubits that are NOT neighbours, every triple of 4 qubits in every argument order and every
+    # triple of 5 qubits in two orders (refused today; a converter that routes them must route them correctly), alone
+    # and after a superposition so that a permutation of the qubits left behind shows in the amplitudes
+    import itertools
+
+    for n in (4, 5):
+        for tri in itertools.combinations(range(n), 3):
+            if tri[2] - tri[0] == 2:
+                continue
+            orders = list(itertools.permutations(tri)) if n == 4 else [tri, (tri[2], tri[0], tri[1])]
+            for k, qs in enumerate(orders):
+                g = "ccx" if (k + sum(tri)) % 2 else "ccz"
+                pre = [["h", [tri[1]], None], ["ry", [tri[0]], 0.7]] if k % 2 else []
+                out.append({"n": n, "aps": True, "instrs": [*pre, [g, list(qs), None]]})
     for ins in ([["cx", [0, 1]], ["cx", [0, 1]]], [["cz", [0, 1]], ["h", [0]], ["cx", [1, 0]]],
                 [["cx", [0, 2]], ["cz", [2, 1]]], [["cx", [3, 0]]], [["cz", [0, 3]], ["cx", [1, 2]]]):
         for aps in (True, False):
